@@ -10,6 +10,12 @@ Streams (all of them on every run, budgets differ by tier):
   utf8      FieldType.to_bytes <-> model utf8Encode (UnicodeEncodeError on surrogates), byte order <-> code
             point order, the real W3FieldCursor.find/text <-> model cursorFindBytes
   fne       DFA.find_next_edge in every state reached on the probes <-> model findNextEdge (direct)
+  merge     reader.lexicon / terms_from / expand_prefix / terms_within of multi-segment readers over generated
+            segment layouts (overlapping, disjoint, identical, contiguous ranges; 1..6 segments) <-> model
+            mergeTerms / termsFromMulti / expandPrefixMulti / termsWithinMulti (MultiReader._merge_terms, the
+            early exit of expand_prefix), and <-> the sorted union / within osa of the union; the same FuzzyTerm
+            through Query.docs(searcher) (one expansion by the MultiReader: model fuzzyDocsTop, documented distance),
+            Searcher.docs_for_query and search (per segment: model fuzzyDocsIndex)
 Exhaustive domains: all words of length <= 5 over {a,b} and <= 4 over {a,b,c} as lexicon members
 and as query words, d in 0..3, p in 0..6.
 """
@@ -29,12 +35,15 @@ THEOREMS = [
     "WM.C19.dp_lev", "WM.C19.dp_osa", "WM.C19.dp_lev_limit", "WM.C19.dp_osa_limit",
     "WM.C19.nfa_reach_sound", "WM.C19.nfa_reach_complete", "WM.C19.nfa", "WM.C19.dfa", "WM.C19.next_valid",
     "WM.C19.walk", "WM.C19.terms_within_multi", "WM.C19.terms_within_single",
+    "WM.C19.merge_terms", "WM.C19.expand_prefix_multi", "WM.C19.terms_within_multi_index",
+    "WM.C19.terms_within_multi_layout", "WM.C19.layout_eq_optimized_partial",
     "WM.C19.utf8_order", "WM.C19.utf8_injective", "WM.C19.cursor_bytes", "WM.C19.terms_within_single_bytes",
-    "WM.C19.fuzzy_query", "WM.C19.fuzzy_query_index", "WM.C19.multi_eq_single_partial", "WM.C19.single_subset_documented",
+    "WM.C19.fuzzy_query", "WM.C19.fuzzy_query_index", "WM.C19.fuzzy_query_docs_top", "WM.C19.fuzzy_access_paths_disagree", "WM.C19.multi_eq_single_partial", "WM.C19.single_subset_documented",
     "WM.C19.single_segment_misses_transposition", "WM.C19.not_multi_eq_single",
     "WM.C19.suggest_partial", "WM.C19.suggest_single_partial", "WM.C19.suggest_returns_word",
     "WM.C19.suggest_ignores_distance", "WM.C19.not_suggest_full",
     "WM.C19.list_corrector_partial", "WM.C19.list_corrector_misses_transposition",
+    "WM.C19.multi_corrector", "WM.C19.multi_corrector_partial",
     "WM.C19.correct_query_partial", "WM.C19.correct_query_single_partial",
 ]
 PARTIAL = {
@@ -47,10 +56,17 @@ PARTIAL = {
     "WM.C19.fuzzy_query": "exact characterisation of FuzzyTerm hits on one segment, by lev instead of the documented "
                           "osa (recorded finding; the empty-term omission was repaired in MultiTerm.matcher)",
     "WM.C19.fuzzy_query_index": "the union over the segments of a multi-segment index (global document numbers); same "
-                                "deviation as fuzzy_query",
+                                "deviation as fuzzy_query; Query.docs(searcher) on a multi-segment index does meet the "
+                                "documented distance (WM.C19.fuzzy_query_docs_top, full strength) - the two access paths "
+                                "disagree: WM.C19.fuzzy_access_paths_disagree",
     "WM.C19.multi_eq_single_partial": "carries the hypothesis that excludes the recorded defect (no lexicon term has "
                                       "osa <= d < lev); the full statement WM.C19.multi_eq_single_full is false of "
                                       "the code: WM.C19.not_multi_eq_single (witness lexicon [ba], word ab, d=1)",
+    "WM.C19.layout_eq_optimized_partial": "one optimized segment and any layout of the same terms give the same "
+                                          "terms_within result under the hypothesis that excludes the recorded defect "
+                                          "(no term with osa <= d < lev); without it the statement is false "
+                                          "(WM.C19.single_segment_misses_transposition); layouts among themselves agree "
+                                          "unconditionally (WM.C19.terms_within_multi_layout)",
     "WM.C19.suggest_partial": "proves membership (existing terms within the documented distance sharing the prefix) "
                               "and the count min(limit, #terms); the full statement WM.C19.suggest_full (never the "
                               "word itself, ordered by closeness then frequency, best-first cut) is false of the code: "
@@ -61,6 +77,11 @@ PARTIAL = {
                                      "distance sharing the prefix) and the limit; the list measures lev, not the "
                                      "documented osa: WM.C19.list_corrector_misses_transposition; the word itself is "
                                      "not excluded",
+    "WM.C19.multi_corrector_partial": "MultiCorrector([reader corrector, ListCorrector], op), any op: succeeds, at most "
+                                      "`limit` suggestions, none twice, each a field term or list word within the "
+                                      "documented distance sharing the prefix; ranking / self-exclusion are the "
+                                      "recorded defects of the sub-correctors (suggest_ignores_distance, "
+                                      "suggest_returns_word), so 'ordered by closeness' is not claimed",
     "WM.C19.correct_query_partial": "the replacement is the word itself or a term within the documented distance sharing "
                                     "the prefix; that it is the closest such term is false of the code (ranking by "
                                     "frequency: WM.C19.suggest_ignores_distance)",
@@ -74,7 +95,9 @@ RULE = ("exhaustive: every word of length <=5 over {a,b} and <=4 over {a,b,c} as
         "lexicon) for index cases, both words non-empty and different for dp cases, 0 < accepted < probes for "
         "automaton cases; find_next_edge cases: the three outcomes (next code point / a later label / none) all "
         "occur for the automaton; utf8 cases: a non-ASCII character is present; cursor cases: the cursor lands on a "
-        "later term that is not the first")
+        "later term that is not the first; merge cases: one (layout, call, prefix | word, d, p) evaluation over "
+        "generated segment layouts of one term set, non-trivial = several segments with some but not all terms "
+        "shared (lexicon), result neither empty nor everything (terms_from / expand_prefix / terms_within)")
 ASSUMPTIONS = [
     "str.encode('utf-8') is the bit layout of WM.Lev.utf8Char and raises on surrogates (checked against "
     "FieldType.to_bytes on every run, incl. every length boundary, both neighbours of the surrogate block and "
@@ -83,13 +106,19 @@ ASSUMPTIONS = [
     "checked here through the real field cursor against cursorFindBytes)",
     "heapq keeps the minimum at heap[0] (the heap is a sorted list in the model)",
     "float scores 0-(maxdist+1.0/f*0.5) order like the exact rationals of the model (frequencies are small integers)",
-    "the merged term list of a MultiReader is the sorted union of the segment term lists (checked end-to-end, not modelled)",
+    "every segment reader's terms_from(field, prefix) yields its sorted term list from the first term >= prefix "
+    "(the term cursor of C20's ordered hash; checked through the real cursor in the utf8 stream); that the merged "
+    "term list of a MultiReader is then the strictly sorted union and that expand_prefix's early exit loses nothing "
+    "is proved (WM.C19.merge_terms, expand_prefix_multi, terms_within_multi_index); the merge model works on code "
+    "points, the real merge compares key bytes - the same order by WM.C19.utf8_order",
 ]
 TRUSTED = [
     "modelled, not verified: whoosh.support.levenshtein (both routines), automata.lev.levenshtein_automaton, "
     "automata.fsa NFA/DFA (expand, next_state, to_dfa, next_valid_string, find_next_edge), "
-    "codec.base.Automata.find_matches, reading.IndexReader.terms_within, spelling.Corrector.suggest / "
-    "ReaderCorrector._suggestions, ListCorrector._suggestions, FieldType.to_bytes (UTF-8) and "
+    "codec.base.Automata.find_matches, reading.IndexReader.terms_within / expand_prefix, "
+    "reading.MultiReader._merge_terms / terms_from (heapq trusted), spelling.Corrector.suggest / "
+    "ReaderCorrector._suggestions, ListCorrector._suggestions, MultiCorrector._suggestions (dict in insertion "
+    "order), FieldType.to_bytes (UTF-8) and "
     "W3FieldCursor.find/text as 'first key >= in byte order'",
 ]
 MANIFEST = {
@@ -103,8 +132,13 @@ MANIFEST = {
                   "{a,b,c}; the Lean spec is the oracle of the end-to-end run.",
     "level_note": "Searcher.suggest / Searcher.correct_query / SimpleQueryCorrector are thin wrappers: correctToken models "
                   "the choice of the first suggestion, the argument forwarding (prefix, maxdist, aliases, custom "
-                  "correctors, default terms) is checked end to end only. Suggestions: only membership and count are proved (ranking/self-exclusion are recorded defects). "
-                  "heapq, float score order and MultiReader term merging are trusted; UTF-8 byte order = code "
+                  "correctors, default terms) is checked end to end only. MultiCorrector is modelled (multiSuggest; run against "
+                  "the real class with op = min and the default max on every run) and proved to merge a word proposed by "
+                  "several correctors into one suggestion (multi_corrector). Suggestions: only membership and count are proved (ranking/self-exclusion are recorded defects). "
+                  "heapq and float score order are trusted; MultiReader term merging and the early exit of expand_prefix "
+                  "are modelled and proved (merge_terms, expand_prefix_multi, terms_within_multi_index: the multi-segment "
+                  "result is within osa of the sorted union of the segment term lists, the same for every layout); "
+                  "UTF-8 byte order = code "
                   "point order is proved (utf8_order) and the walk is proved over the byte-ordered dictionary "
                   "(terms_within_single_bytes); the fuel bounds of the three fuelled model loops are proved sufficient.",
     "technique": "Lean 4 proof + differential correspondence + spec-as-oracle end-to-end",
@@ -910,6 +944,11 @@ def _corrector_jobs(ctx, jobs, W, ds, ps, limits):
             else:
                 lines.append("c19 tw-seg-grid (%s) %s %s %s" % (G.sx_words(cfg.lex), G.sx_word(w), G.sx_nats(ds),
                                                                 G.sx_nats(ps)))
+            for opn in ("min", "max"):
+                # the Lean model of MultiCorrector([reader corrector, ListCorrector(wl)], op)
+                lines.append("c19 multi-sug-grid %s %s %s %s %s %s %s %s %s" % (
+                    "base" if multi else "seg", G.sx_words(cfg.lex), G.sx_nats([cfg.freq[t] for t in cfg.lex]),
+                    G.sx_words(wl), G.sx_word(w), opn, G.sx_nats(mlimits), G.sx_nats(ds), G.sx_nats(ps)))
     rep = ctx.driver.ask_parallel(lines)
     pos = 0
     for cfg, wl in jobs:
@@ -928,7 +967,16 @@ def _corrector_jobs(ctx, jobs, W, ds, ps, limits):
                         lsug[(d, p, lim)] = _words_or_err(flat[k])
                         k += 1
             grid = _grid(parse_sexp(rep[pos + 4])[0], ds, ps)
-            pos += 5
+            msug = {}
+            for oi, opn in enumerate(("multi-min", "multi-max")):
+                flat = parse_sexp(rep[pos + 5 + oi])[0]
+                k = 0
+                for d in ds:
+                    for p in ps:
+                        for lim in mlimits:
+                            msug[(opn, d, p, lim)] = _words_or_err(flat[k])
+                            k += 1
+            pos += 7
             for d in ds:
                 for p in ps:
                     item = grid[(d, p)]
@@ -953,13 +1001,19 @@ def _corrector_jobs(ctx, jobs, W, ds, ps, limits):
                         _check_corrector(ctx, "list", cfg, wl, w, lim, d, p, rr["list"][(w, lim, d, p)],
                                          lsug[(d, p, lim)], ok_list, osa_wl)
                         for name, op in (("multi-min", min), ("multi-max", max)):
+                            # model of MultiCorrector: the Lean `multiSuggest`; the harness-side mirror (float
+                            # scores, Python dict) must agree with it
+                            pred = msug[(name, d, p, lim)]
                             if reader_items is None:
-                                pred = mtw
+                                mirror = mtw
                             else:
                                 seen = {}
                                 for score, sug in reader_items + list_items:
                                     seen[sug] = op(seen[sug], score) if sug in seen else score
-                                pred = _py_suggest([(sc, sg) for sg, sc in seen.items()], lim)
+                                mirror = _py_suggest([(sc, sg) for sg, sc in seen.items()], lim)
+                            ctx.stat("multiSuggest:lean-model-vs-mirror")
+                            if pred != mirror:
+                                ctx.divergence("multiSuggest-vs-mirror", [cfg.key, wl, w, name, lim, d, p], pred, mirror)
                             _check_corrector(ctx, name, cfg, wl, w, lim, d, p, rr[name][(w, lim, d, p)], pred,
                                              ok_list | ok_lex, None)
                     first = lsug[(d, p, 5)]
@@ -1020,6 +1074,176 @@ def _check_corrector(ctx, kind, cfg, wl, w, lim, d, p, obs, pred, allowed, dist)
             ctx.violation(SIG_LIST_LEV + suffix, case, C[:lim], obs,
                           "ListCorrector measures plain Levenshtein distance: a transposition neighbour counts as "
                           "two edits (missing at maxdist 1, ranked behind true distance-2 words otherwise)")
+
+
+# ------------------------------------------------------------------------------------------------
+# stream: the merged term list of a multi-segment reader (MultiReader._merge_terms, terms_from, expand_prefix)
+
+MERGE_DS = [1, 2]
+MERGE_PS = [0, 1, 2]
+
+
+def _merge_layouts(ctx, n):
+    """Segment layouts of one term set: overlapping, disjoint, identical, contiguous ranges (so that for a late
+    prefix a single segment iterator is active), 1..6 segments, small and multi-byte alphabets, the empty term."""
+    rng = ctx.rng("merge")
+    alphabets = ["ab", "abc", ["a", LASTLOW, FIRSTHIGH], ["\x7f", "\x80", "\u07ff"], ["\uffff", "\U00010000", "a"],
+                 ["\x00", "b", MAXCP], ["a", "\u00e9", "\u4e2d"]]
+    jobs = []
+    for i in range(n):
+        al = alphabets[i % len(alphabets)]
+        W = set()
+        for _ in range(rng.randint(3, 24)):
+            W.add("".join(rng.choice(al) for _ in range(rng.randint(0 if rng.random() < 0.3 else 1, 4))))
+        W = G.utf8_sorted(W)
+        nseg = [2, 3, 1, 4, 6, 2, 3][(i // 4) % 7]
+        mode = i % 4
+        if mode == 0:        # overlapping: every term in a random non-empty subset of the segments
+            segs = [[] for _ in range(nseg)]
+            for t in W:
+                ks = [k for k in range(nseg) if rng.random() < 0.5] or [rng.randrange(nseg)]
+                for k in ks:
+                    segs[k].append(t)
+        elif mode == 1:      # disjoint, interleaved
+            segs = [W[k::nseg] for k in range(nseg)]
+        elif mode == 2:      # the same terms in every segment
+            segs = [list(W) for _ in range(nseg)]
+        else:                # contiguous ranges of the sorted term list
+            cuts = sorted(rng.randint(0, len(W)) for _ in range(nseg - 1))
+            segs = [W[a:b] for a, b in zip([0] + cuts, cuts + [len(W)])]
+        segs = [list(sg) for sg in segs if sg]
+        for sg in segs:
+            sg += [rng.choice(sg) for _ in range(rng.randint(0, 2))]      # repeated documents
+            rng.shuffle(sg)
+        pres = {"", W[-1], W[-1][:1], W[len(W) // 2], W[len(W) // 2][:1], W[0] + al[0], W[-1] + al[-1]}
+        for _ in range(3):
+            t = rng.choice(W)
+            pres.add(t[:rng.randint(0, len(t))])
+            pres.add("".join(rng.choice(al) for _ in range(rng.randint(1, 3))))
+        qws = set(rng.sample(W, min(2, len(W))))
+        qws.add("".join(rng.choice(al) for _ in range(rng.randint(1, 4))))
+        jobs.append({"kind": "merge", "key": "merge%d" % i, "segs": segs, "pres": sorted(pres), "ws": sorted(qws)})
+    return jobs
+
+
+def _merge_jobs(ctx, jobs):
+    units = []
+    for j in jobs:
+        multi = len(j["segs"]) > 1
+        # (a one-segment reader answers terms_within with the automaton: covered by the index stream)
+        qs = [(w, d, p) for w in j["ws"] for d in MERGE_DS for p in MERGE_PS] if multi else []
+        units.append((j["key"], j["segs"], j["pres"], qs))
+    real = ctx.pmap(G.run_merge_unit, units)
+    lines, per = [], []
+    for j in jobs:
+        seglex = [G.utf8_sorted(sg) for sg in j["segs"]]
+        union = G.utf8_sorted([t for sg in j["segs"] for t in sg])
+        sx = "(" + " ".join(G.sx_words(lx) for lx in seglex) + ")"
+        start = len(lines)
+        lines.append("c19 merge %s" % sx)
+        lines.append("c19 tfrom-multi %s %s" % (sx, G.sx_words(j["pres"])))
+        lines.append("c19 expand-multi %s %s" % (sx, G.sx_words(j["pres"])))
+        if len(j["segs"]) > 1:
+            for w in j["ws"]:
+                lines.append("c19 tw-multi-grid %s %s %s %s" % (sx, G.sx_word(w), G.sx_nats(MERGE_DS), G.sx_nats(MERGE_PS)))
+                lines.append("c19 within-grid osa %s %s %s %s" % (G.sx_words(union), G.sx_word(w), G.sx_nats(MERGE_DS),
+                                                                 G.sx_nats(MERGE_PS)))
+                lines.append("c19 within-grid lev %s %s %s %s" % (G.sx_words(union), G.sx_word(w), G.sx_nats(MERGE_DS),
+                                                                 G.sx_nats(MERGE_PS)))
+                lines.append("c19 fuzzy-paths-grid %s (%s) %s %s %s" % (
+                    sx, " ".join("(" + " ".join("(" + G.sx_word(t) + ")" for t in sg) + ")" for sg in j["segs"]),
+                    G.sx_word(w), G.sx_nats(MERGE_DS), G.sx_nats(MERGE_PS)))
+        per.append((start, seglex, union))
+    rep = ctx.driver.ask(lines)
+    for j, rr, (start, seglex, union) in zip(jobs, real, per):
+        nseg = len(seglex)
+        ctx.stat("merge:segments=%d" % nseg)
+        ctx.stat("merge:reader=%s" % rr["reader"])
+        shared = sum(1 for t in union if sum(t in lx for lx in seglex) > 1)
+        base = {"kind": "merge", "key": j["key"], "segs": j["segs"], "pres": j["pres"], "ws": j["ws"]}
+        # lexicon() <-> mergeTerms <-> sorted union
+        m_lex = _words_or_err(parse_sexp(rep[start])[0]) if rep[start].startswith("(") else rep[start]
+        ctx.case(("merge:lexicon", j["key"], repr(j["segs"])), nontrivial=nseg > 1 and 0 < shared < len(union))
+        if rr["lexicon"] != m_lex:
+            ctx.divergence("reading.MultiReader._merge_terms(lexicon)", dict(base, call="lexicon"), m_lex, rr["lexicon"])
+        if rr["lexicon"] != union:
+            ctx.violation("IndexReader.lexicon:!=sorted-union-of-the-segment-term-lists", dict(base, call="lexicon"),
+                          union, rr["lexicon"], "the reader's term list is not the sorted union of its segments' terms")
+        m_tf = parse_sexp(rep[start + 1])[0]
+        m_ex = parse_sexp(rep[start + 2])[0]
+        for k, pre in enumerate(j["pres"]):
+            bpre = pre.encode("utf8")
+            exp_tf = [t for t in union if t.encode("utf8") >= bpre]
+            exp_ex = [t for t in union if t.startswith(pre)]
+            active = sum(1 for lx in seglex if any(t.encode("utf8") >= bpre for t in lx))
+            if nseg > 1:
+                ctx.stat("merge:active-iterators=%s" % ("0" if active == 0 else "1" if active == 1 else ">=2"))
+            ctx.stat("expand_prefix:%s" % ("empty" if not exp_ex else "all-from-prefix" if exp_ex == exp_tf else "early-exit"))
+            for call, model, obs, exp, sig in (
+                    ("terms_from", _words_or_err(m_tf[k]), rr["tfrom"][pre], exp_tf,
+                     "IndexReader.terms_from:!=terms-of-the-union>=prefix"),
+                    ("expand_prefix", _words_or_err(m_ex[k]), rr["expand"][pre], exp_ex,
+                     "IndexReader.expand_prefix:!=terms-of-the-union-starting-with-prefix")):
+                case = dict(base, call=call, prefix=pre)
+                ctx.case(("merge:" + call, j["key"], repr(j["segs"]), pre), nontrivial=0 < len(exp) < len(union))
+                if obs != model:
+                    ctx.divergence("reading.IndexReader.%s(%s)" % (call, rr["reader"]), case, model, obs)
+                if obs != exp:
+                    ctx.violation(sig, case, exp, obs, "%s(%r) of the %s" % (call, pre, rr["reader"]))
+        if nseg > 1:
+            pos = start + 3
+            for w in j["ws"]:
+                mg = _grid(parse_sexp(rep[pos])[0], MERGE_DS, MERGE_PS)
+                sg = _grid(parse_sexp(rep[pos + 1])[0], MERGE_DS, MERGE_PS)
+                sl = _grid(parse_sexp(rep[pos + 2])[0], MERGE_DS, MERGE_PS)
+                fp = _grid(parse_sexp(rep[pos + 3])[0], MERGE_DS, MERGE_PS)
+                pos += 4
+                alldocs = [t for sg_ in j["segs"] for t in sg_]
+                for d in MERGE_DS:
+                    for p in MERGE_PS:
+                        model = _words_or_err(mg[(d, p)])
+                        spec = G.parse_words(sg[(d, p)])
+                        obs = rr["tw"][(w, d, p)]
+                        pool = [t for t in union if _share_prefix(p, t, w)]
+                        case = dict(base, call="terms_within", w=w, d=d, p=p)
+                        ctx.case(("merge:terms_within", j["key"], repr(j["segs"]), w, d, p),
+                                 nontrivial=0 < len(spec) < len(pool))
+                        if obs != model:
+                            ctx.divergence("reading.IndexReader.terms_within(from-segment-term-lists)", case, model, obs)
+                        if not isinstance(obs, list) or sorted(obs) != sorted(spec):
+                            ctx.violation("terms_within:multi:result!=terms-within-distance(from-segment-term-lists)",
+                                          case, spec, obs, "multi-segment terms_within differs from within osa of the union")
+                        # FuzzyTerm through Query.docs (one expansion by the MultiReader: documented distance),
+                        # docs_for_query and search (per segment: plain Levenshtein, the recorded finding)
+                        def nats(x):
+                            return x if isinstance(x, str) else [int(v) for v in x]
+                        m_top, m_leaf = nats(fp[(d, p)][0]), nats(fp[(d, p)][1])
+                        es, els = set(spec), set(G.parse_words(sl[(d, p)]))
+                        exp_docs = [i for i, t in enumerate(alldocs) if t in es]
+                        lev_docs = [i for i, t in enumerate(alldocs) if t in els]
+                        if exp_docs != lev_docs:
+                            ctx.stat("fuzzy-paths:Query.docs!=search(transposition)")
+                        for path, model in (("qdocs", m_top), ("dfq", m_leaf), ("search", m_leaf)):
+                            fo = rr[path][(w, d, p)]
+                            fcase = dict(base, call="fuzzy:" + path, w=w, d=d, p=p)
+                            ctx.case(("merge:fuzzy", path, j["key"], repr(j["segs"]), w, d, p),
+                                     nontrivial=0 < len(exp_docs) < len(alldocs))
+                            ctx.stat("fuzzy-paths:" + path)
+                            if fo != model:
+                                ctx.divergence("FuzzyTerm[%s]" % path, fcase, model, fo)
+                            if fo != exp_docs:
+                                if path != "qdocs" and fo == lev_docs:
+                                    ctx.violation(SIG_TRANSP_FUZZY, fcase, exp_docs, fo,
+                                                  "FuzzyTerm misses documents whose term is one adjacent transposition away "
+                                                  "(every segment is searched with the plain Levenshtein automaton)")
+                                else:
+                                    ctx.violation("FuzzyTerm.%s:hits!=docs-of-terms-within-distance" %
+                                                  {"qdocs": "docs(searcher)", "dfq": "docs_for_query", "search": "search"}[path],
+                                                  fcase, exp_docs, fo, "multi-segment index, access path %s" % path)
+
+
+def _merge_stream(ctx):
+    _merge_jobs(ctx, _merge_layouts(ctx, ctx.budget(28, 420)))
 
 
 def _multibyte_configs(ctx, n):
@@ -1138,6 +1362,8 @@ def _run(ctx):
     lap("index(ab5,abc4,multibyte)")
     _corrector_stream(ctx)
     lap("correctors")
+    _merge_stream(ctx)
+    lap("merge(lexicon,terms_from,expand_prefix)")
     ctx.sample({"terms_within": {"lexicon": ["ab", "ba"], "word": "ab", "d": 1, "p": 0},
                 "documented(osa)": ["ab", "ba"], "one segment returns": ["ab"]})
 
@@ -1173,7 +1399,9 @@ def _run_cases(ctx, cases):
 def _run_case(ctx, case):
     """Re-execute one stored case through the normal comparison code."""
     kind = case.get("kind")
-    if kind == "corrector":
+    if kind == "merge":
+        _merge_jobs(ctx, [case])
+    elif kind == "corrector":
         _corrector_jobs(ctx, [(Config("replay", case["segs"]), case["wordlist"])], [case["w"]], [case["d"]],
                         [case["p"]], [case["limit"]])
     elif kind in ("tw", "fuzzy", "suggest", "correct"):
